@@ -378,7 +378,15 @@ def job_api(cfg):
     world.reset()
     fam = cfg['family']
     seedv = cfg.get('seed', 0)
-    r = make_rig(cfg, cfg.get('transport', 'udp'), fill=lambda a: (a * 7919 + seedv * 31 + 3) & 0x7FFF, ka=cfg.get('ka', False))
+    fill = lambda a: (a * 7919 + seedv * 31 + 3) & 0x7FFF      # noqa: E731
+    w16 = W16
+    if cfg.get('other_small') is not None:
+        # the registers the stage does not assign itself hold small values: every pair of adjacent registers takes every
+        # combination of {0,1,2,3} over the 16 configurations (status / mode words of the OTHER blocks of the poll)
+        x, y = cfg['other_small'] // 4, cfg['other_small'] % 4
+        fill = lambda a: x if a % 2 == 0 else y      # noqa: E731
+        w16 = (0, 1200, 0xFB50, 0x7FFF, 0x8000, 90)
+    r = make_rig(cfg, cfg.get('transport', 'udp'), fill=fill, ka=cfg.get('ka', False))
     inv = r.inv
     if r.call(inv.read_device_info)[0] != 'ok':
         return 0, [dict(key=f'api/{fam}/device-info', clause='device info readable', n=1, replay=dict(kind='api', cfg=cfg), detail={})]
@@ -412,12 +420,13 @@ def job_api(cfg):
                     hidden[s.id_] = None if v is refdec.NOVALUE else v
         for name, cause in relations(fam, inv, st[1], hidden):
             key = f'api:{name}/{fam}' + (f"/after-configuring:{cfg['neighbour']}" if cfg.get('neighbour') else '') + \
-                (f"/{cfg['transport']}" + ('+keep-alive' if cfg.get('ka') else '') if cfg.get('transport') else '')
+                (f"/{cfg['transport']}" + ('+keep-alive' if cfg.get('ka') else '') if cfg.get('transport') else '') + \
+                ('/small-values-in-the-other-registers' if cfg.get('other_small') is not None else '')
             vio.setdefault(key, []).append(dict(key=key, clause=name, replay=dict(kind='api', cfg=cfg, assign=assign),
                                                 detail=dict(cause=cause, registers=assign, model=cfg['tag'], rated=cfg['power'])))
     if fam == 'ES':
         dev = r.dev
-        for a in W16:
+        for a in w16:
             for b in (0, 1, 2, 3, 0x80, 0xFF):
                 dev.runtime[38:40] = a.to_bytes(2, 'big')
                 dev.runtime[18:20] = ((a * 3) & 0xFFFF).to_bytes(2, 'big')
@@ -428,8 +437,8 @@ def job_api(cfg):
     else:
         rf = r.dev.rf
         base = 35139 if fam == 'ET' else 30127
-        for hi in W16:
-            for lo in W16:
+        for hi in w16:
+            for lo in w16:
                 for k, other in enumerate((0, 0xFFFF)):
                     rf.set(base, hi)
                     rf.set(base + 1, lo)
@@ -467,7 +476,10 @@ def api_configs(tier, seed):
     other = [dict(family='ET', tag=t, power=p, refused=(), battery_mode=2, transport=tr, ka=ka)
              for t, p in (('ETU', 10000), ('ETT', 25000)) for tr, ka in (('tcp', False), ('tcp', True), ('udp', True))] + \
             [dict(family='DT', tag='DTU', power=5000, refused=(), battery_mode=0, transport='tcp', ka=False)]
-    return out + [dict(c, seed=seed) for c in refusing + other]
+    small = [dict(family='ET', tag=t, power=p, refused=(), battery_mode=2, other_small=k)
+             for t, p in (('ETU', 10000), ('ETT', 25000)) for k in range(16)] + \
+            [dict(family='DT', tag='DTU', power=5000, refused=(), battery_mode=0, other_small=k) for k in range(16)]
+    return out + [dict(c, seed=seed) for c in refusing + other + small]
 
 
 def api_configs_with_neighbours(tier, seed):
